@@ -218,7 +218,7 @@ fn build(p: &P26) -> Prog {
     let mut out_idx = Vec::new();
     let mut own = Vec::new();
     for (i, n) in p.nodes.iter().enumerate() {
-        let m = "dx_shape::rt::";
+        let m = "dxs_rt::";
         let (kind, text): (&str, String) = match &n.op {
             Op26::Source(s) => ("source_stream", format!("source_stream(rx{s})")),
             Op26::Map(f) => ("map", format!("map(|x: It| {m}mapf({f}, x))")),
